@@ -323,6 +323,14 @@ def why(exp, got):
     for g in exp["groups"]:
         if not any(all(_key(g["f"], o[0], o[1]) in have for o in n) for n in g["need"]):
             out.append(("missing-row", g["f"]["fam"], g["f"]["type"]))
+    # one row per inet socket, however many descriptors refer to it (Overcounted of NetConn.tla)
+    admk = [{_key(g["f"], o[0], o[1]) for o in g["owners"]} for g in exp["groups"]]
+    for g, ak in zip(exp["groups"], admk):
+        if g["f"]["fam"] == "unix":
+            continue
+        total = sum(r["n"] for r in got["rows"] if _key(r["f"], r["pid"], r["fd"]) in ak)
+        if total > sum(1 for bk in admk if bk & ak):
+            out.append(("row-per-holder", g["f"]["fam"], g["f"]["type"]))
     return sorted(set(out))
 
 
